@@ -395,6 +395,19 @@ class BMC:
         if out is None:
             return dict(info, verdict="unknown", solver_s=time.time() - t0, why="kissat timeout %ds" % timeout_s)
         dt = time.time() - t0
+        # second solver (thorough tier): the same CNF is given to z3's own SAT core under a short cap; a DISAGREEMENT is fatal
+        # (verdict unknown), a cross-checker that merely runs out of time is recorded and ignored
+        xc = None
+        if os.environ.get("VERIF_M_CROSSCHECK") == "1" and (info.get("clauses") or 0) <= 1500000:
+            try:
+                z = subprocess.run(["z3", "-T:90", "-dimacs", path], stdout=subprocess.PIPE, stderr=subprocess.STDOUT, text=True, timeout=120).stdout
+                xc = "unsat" if "s UNSATISFIABLE" in z or z.strip().startswith("unsat") or "\nunsat" in z else ("sat" if "s SATISFIABLE" in z or z.strip().startswith("sat") or "\nsat" in z else "timeout")
+            except Exception:
+                xc = "timeout"
+            mine = "unsat" if "s UNSATISFIABLE" in out else ("sat" if "s SATISFIABLE" in out else None)
+            if xc in ("sat", "unsat") and mine and xc != mine:
+                return dict(info, verdict="unknown", solver_s=dt, why="solver disagreement: kissat says %s, z3 says %s" % (mine, xc))
+            info["crosscheck_z3"] = xc
         if "s UNSATISFIABLE" in out:
             return dict(info, verdict="unsat", solver_s=dt)
         if "s SATISFIABLE" in out:
